@@ -9,6 +9,7 @@ import (
 	_ "verifmc/checks/c14"
 	_ "verifmc/checks/c15"
 	_ "verifmc/checks/c18"
+	_ "verifmc/checks/lease"
 	_ "verifmc/checks/optplug"
 	_ "verifmc/checks/pd"
 	_ "verifmc/checks/c20"
